@@ -35,7 +35,8 @@ EXTENDS Integers, Sequences, FiniteSets, TLC
 
 CONSTANTS T,            \* thread ids 1..N
           Configs,      \* set of records [progs : T -> Seq(op), own0 : T -> Nat, borrowers : SUBSET T]
-          Variant,
+          Variant,      \* probe shape of reserve (push, push_str, insert, reserve)
+          VariantE,     \* probe shape of ensure_modifiable (remove, retain)
           OrdCloneInc, OrdDropDec, OrdDropFence, OrdUniqueLoad, OrdProbeDec, OrdProbeInc
 
 VARIABLES cfg, pc, ip, own, lent, mo, vc, pend, seen, lastW, reads, freed, err, sched
@@ -135,6 +136,7 @@ First(op) ==
     [] op \in {"read", "readb", "trunc"} -> "r_read"
     [] op = "drop" -> "d_dec"
     [] op \in {"push", "reserve", "shrink", "clear"} -> (IF Variant = "decprobe" /\ op \in {"push", "reserve"} THEN "p_dec" ELSE "u_load")
+    [] op = "rm" -> "r_read"        \* remove: reads the text (boundary check), then ensure_modifiable, then writes in place
     [] op = "join" -> "j_join"
     [] OTHER -> "next"
 Cur(t) == Progs[t][ip[t] - 1]     \* the op being executed (ip already advanced)
@@ -149,7 +151,9 @@ Fetch(t) == /\ pc[t] = "next" /\ ip[t] <= Len(Progs[t])
 CInc(t) == pc[t] = "c_inc" /\ RMW(t, 1, OrdCloneInc) /\ own' = [own EXCEPT ![t] = @ + 1]
            /\ Goto(t, "next") /\ UNCHANGED <<ip, lent>> /\ NoBuf /\ Rec(t, "rmw+")
 \* read the text (as_str by the user; pop/truncate read it too)
-RRead(t) == pc[t] = "r_read" /\ BufRead(t) /\ Goto(t, "next") /\ Keep /\ NoAtom /\ Rec(t, "read")
+RRead(t) == pc[t] = "r_read" /\ BufRead(t)
+            /\ Goto(t, IF Cur(t) = "rm" THEN (IF VariantE = "decprobe" THEN "p_dec" ELSE "u_load") ELSE "next")
+            /\ Keep /\ NoAtom /\ Rec(t, "read")
 \* drop / the release half of replace_inner
 DDec(t) == pc[t] = "d_dec" /\ RMW(t, -1, OrdDropDec) /\ Lose(t)
            /\ Goto(t, IF Prev = 1 THEN "d_fence" ELSE "next") /\ UNCHANGED <<ip, lent>> /\ NoBuf /\ Rec(t, "rmw-")
@@ -160,7 +164,7 @@ DFree(t) == pc[t] = "d_free" /\ BufWrite(t, TRUE) /\ Goto(t, "next") /\ Keep /\ 
 ULoad(t) == pc[t] = "u_load" /\ \E i \in MinIdx(t)..Len(mo) :
               /\ Load(t, i, OrdUniqueLoad)
               /\ LET uniq == mo[i].val = 1  op == Cur(t) IN
-                 Goto(t, CASE op = "push"    -> (IF uniq THEN "w_write" ELSE "x_copy")
+                 Goto(t, CASE op \in {"push", "rm"} -> (IF uniq THEN "w_write" ELSE "x_copy")
                            [] op = "reserve" -> (IF uniq THEN "w_realloc" ELSE "x_copy")
                            [] op = "shrink"  -> (IF uniq THEN "w_realloc" ELSE "x_copy")
                            [] op = "clear"   -> (IF uniq THEN "next" ELSE "d_dec")
@@ -176,7 +180,7 @@ XCopy(t) == pc[t] = "x_copy" /\ BufRead(t) /\ Goto(t, "d_dec") /\ Keep /\ NoAtom
 PDec(t) == pc[t] = "p_dec" /\ RMW(t, -1, OrdProbeDec)
            /\ Goto(t, IF Prev = 1 THEN "p_inc" ELSE "p_copy") /\ Keep /\ NoBuf /\ Rec(t, "rmw-")
 PInc(t) == pc[t] = "p_inc" /\ RMW(t, 1, OrdProbeInc)
-           /\ Goto(t, IF Cur(t) = "push" THEN "w_write" ELSE "w_realloc") /\ Keep /\ NoBuf /\ Rec(t, "rmw+")
+           /\ Goto(t, IF Cur(t) \in {"push", "rm"} THEN "w_write" ELSE "w_realloc") /\ Keep /\ NoBuf /\ Rec(t, "rmw+")
 PCopy(t) == pc[t] = "p_copy" /\ BufRead(t) /\ Lose(t) /\ Goto(t, "next") /\ UNCHANGED <<ip, lent>> /\ NoAtom /\ Rec(t, "read")
 
 \* thread 1 joins its borrowers: their clocks flow into its own, the lent handle is its own again
